@@ -20,7 +20,7 @@ ASSUMPTIONS = ['virtual time; horizon 3-8 periods']
 PROBES = ['rejected_post']
 PLAN = {
   'quick': {'strata': {'rejected': 3000}, 'wall_s': 300, 'chunk': 50, 'min_conclusive': 800},
-  'thorough': {'strata': {'rejected': 80000}, 'wall_s': 900, 'chunk': 100, 'min_conclusive': 8000},
+  'thorough': {'strata': {'rejected': 80000}, 'wall_s': 900, 'chunk': 100, 'min_conclusive': 800},
 }
 
 
